@@ -38,6 +38,8 @@ func compact(s string) string {
 type LoopSpec struct {
 	Invariants []Clause
 	Decreases  ast.Expr
+	Uses       []ast.Expr
+	EntryUses  []ast.Expr
 }
 
 type Contract struct {
@@ -120,10 +122,14 @@ func (c *Ctx) parseContracts(p *packages.Package) error {
 		_ = flush
 		for _, cg := range file.Comments {
 			for _, cm := range cg.List {
-				if !strings.HasPrefix(cm.Text, "//@") {
+				txt := cm.Text
+				if strings.HasPrefix(txt, "// @") { // gofmt rewrites //@ in doc comments
+					txt = "//@" + txt[4:]
+				}
+				if !strings.HasPrefix(txt, "//@") {
 					continue
 				}
-				line := strings.TrimSpace(strings.TrimPrefix(cm.Text, "//@"))
+				line := strings.TrimSpace(strings.TrimPrefix(txt, "//@"))
 				if line == "" {
 					continue
 				}
@@ -285,6 +291,17 @@ func (c *Ctx) parseContracts(p *packages.Package) error {
 							ls.Invariants = append(ls.Invariants, cl)
 							lastClause = &ls.Invariants[len(ls.Invariants)-1]
 							lastKind = "invariant"
+						case "use", "use-entry":
+							x, err := parser.ParseExpr(desugar(body))
+							if err != nil {
+								return fmt.Errorf("%s: loop use: %v", where, err)
+							}
+							if fields[2] == "use" {
+								ls.Uses = append(ls.Uses, x)
+							} else {
+								ls.EntryUses = append(ls.EntryUses, x)
+							}
+							lastClause = nil
 						case "decreases":
 							x, err := parser.ParseExpr(desugar(body))
 							if err != nil {
